@@ -8,11 +8,12 @@ enum { A_CALLBACK_AWAIT, A_CALLBACK_AWAIT_ALLOC, A_MAKE_PROMISE, A_MAKE_PROMISE_
        A_CALL_FN_AWAITER, A_CONV_VOID_SOURCE, A_CONV_FREE_CTX, A_COUNT };
 enum { O_VALUE, O_EXC, O_DROP };
 enum { T_BEFORE, T_LATER_SAME_THREAD, T_OTHER_THREAD };
-struct Prog { uint8_t adapter, outcome, timing, conv_throws, yields; uint8_t rearm = 0; };   // rearm (call_fn_future_awaiter): the handler starts a second operation on the same awaiter
+struct Prog { uint8_t adapter, outcome, timing, conv_throws, yields; uint8_t rearm = 0; uint8_t declines = 0; };   // declines (promise-passing converter): it returns without touching the promise it was handed   // rearm (call_fn_future_awaiter): the handler starts a second operation on the same awaiter
 
 inline Prog decode(hz::Reader &r) {
     Prog p; p.adapter = (uint8_t)r.mod(A_COUNT); p.outcome = (uint8_t)r.mod(3); p.timing = (uint8_t)r.mod(3); p.conv_throws = (uint8_t)(r.mod(4) == 0); p.yields = (uint8_t)r.mod(4);
     p.rearm = (uint8_t)(r.mod(4) != 0 && p.adapter == A_CALL_FN_AWAITER);
+    p.declines = (uint8_t)(r.mod(2) == 1 && p.adapter == A_CONV_PROMISE_PASSING);
     return p;
 }
 inline std::string describe(const Prog &p) {
@@ -21,6 +22,7 @@ inline std::string describe(const Prog &p) {
     static const char *on[] = {"value", "exception", "drop"};
     static const char *tn[] = {"resolved before registration", "resolved later on the same thread", "resolved concurrently on another thread"};
     hz::Desc d; d << an[p.adapter] << " x " << on[p.outcome] << " x " << tn[p.timing] << (p.conv_throws ? " (converter throws)" : "") << ", yield*" << (unsigned)p.yields;
+    if (p.declines) d << "; the converter declines: it returns without resolving or moving the promise (the outer future then ends as a broken promise)";
     if (p.rearm) d << "; the completion handler re-arms the awaiter with a second operation (resolved with a value the same way) and keeps working for a while";
     return d.s;
 }
@@ -71,7 +73,7 @@ struct World {
 
     // converters
     int conv_member(int &src) { if (conv_throws) throw val::TestExc(9); return src + 1; }
-    cocls::suspend_point<void> conv_passing(int &src, cocls::promise<int> &prom) { if (conv_throws) throw val::TestExc(9); return prom(src + 1); }
+    cocls::suspend_point<void> conv_passing(int &src, cocls::promise<int> &prom) { if (conv_throws) throw val::TestExc(9); if (p.declines) return {}; return prom(src + 1); }
     int conv_void() { if (conv_throws) throw val::TestExc(9); return 43; }
     cocls::future<int> source2() {
         return cocls::future<int>([this](cocls::promise<int> pr) {
@@ -99,7 +101,7 @@ inline void run(hz::Reader &r) {
     bool conv = p.adapter == A_CONV_MEMBER || p.adapter == A_CONV_FREE || p.adapter == A_CONV_PROMISE_PASSING || p.adapter == A_CONV_VOID_SOURCE || p.adapter == A_CONV_FREE_CTX;
     bool can_throw = conv && p.adapter != A_CONV_FREE;
     int expect = p.outcome == O_VALUE ? 42 : p.outcome == O_EXC ? 1005 : -1;
-    if (conv && p.outcome == O_VALUE) expect = (can_throw && p.conv_throws) ? 1009 : 43;
+    if (conv && p.outcome == O_VALUE) expect = (can_throw && p.conv_throws) ? 1009 : p.declines ? -1 : 43;
     {
         World w; w.p = p; w.conv_throws = p.conv_throws;
         TrackStorage stor;
@@ -183,7 +185,7 @@ static const char *const counter_names[] = {"c0"};
 
 namespace hz {
 static const Info I = {
-    "C18", 1, 10, 100000, true, true,
+    "C18", 1, 12, 100000, true, true,
     "rapidcheck generates (program, schedule, faults): adapter in {callback_await, callback_await_alloc with a tracking storage, make_promise(fn), make_promise(fn, storage), discard, future_conv (member / free / free+context / promise-passing / void-source forms, "
     "converter optionally throwing), call_fn_future_awaiter} x outcome {value, exception, drop} x timing {resolved before registration, later on the same thread, concurrently on another thread of the virtual runtime}. "
     "Oracle: the completion ran exactly once with exactly that outcome (value / same exception / broken promise), converters deliver value+1 or the source's or the converter's exception to the outer future, the helper block of the supplied storage is "
